@@ -369,33 +369,55 @@ def rule_predicates(fx, rep):
                 fr.storev(t['dest'], ('bool', ('is_identity', t['span'])))
                 return True
             return False
-        I3 = exp.Interp(fx, 'mul', extra_transfer=tr3)
+        import inline as INL
+        from exp import Sum
+        I3 = exp.Interp(fx, 'mul', extra_transfer=tr3, inline=lambda q: INL.is_private_helper(fx, q) and q != coeff_b)
+        I3.sums = True
+        I3.fork_inlined = True
         try:
             selfv = Agg([Lin.atom('x'), Lin.atom('y'), exp.TOP])
             res3 = I3.run(p3, [('byref', selfv)])
-            ok = len(res3) == 2
-            why = '%d paths' % len(res3)
-            for pth, ret, _ in res3:
-                labs = [lab_name(l) for l in pth.labels]
-                if labs and labs[0][0] == 'is_identity' and labs[0][1]:
-                    if not (isinstance(ret, Int) and ret.v == 1):
-                        ok, why = False, 'identity is not accepted'
-                elif labs and labs[0][0] == 'is_identity':
-                    good = isinstance(ret, tuple) and ret[0] == 'bool' and ret[1][0] == 'eq'
-                    if good:
-                        a, b_ = ret[1][1], ret[1][2]
-                        sides = [a, b_]
-                        y2 = [s for s in sides if s == Lin({'y': 2})]
-                        rhs = [s for s in sides if isinstance(s, Lin) and len(s.t) == 1 and list(s.t)[0].startswith('opaque')]
-                        good = len(y2) == 1 and len(rhs) == 1
-                        if good:
-                            site = [s for s in I3.opaque_sites if s[0] == list(rhs[0].t)[0]]
-                            good = bool(site) and site[0][1] in ('add_assign(Lin(x:3), Lin(b:1))',)
-                    if not good:
-                        ok, why = False, 'finite points are accepted under %r, expected y^2 == x^3 + b' % (ret,)
-                else:
-                    ok, why = False, 'unexpected branch %r' % (labs,)
-            rep.check(ok, 'GUARD', '%s:is_on_curve:shape' % g, 'identity -> true; otherwise y^2 == x^3 + b with b from get_coeff_b', why, fx.fn(p3)['span'], construct=p3)
+            want_rhs = Sum.of(Lin({'x': 3})).add(Sum.of(Lin.atom('b')))
+            y2 = Lin({'y': 2})
+            bad = []
+
+            def norm(term):
+                # the curve equation test in any spelling
+                x_, neg_ = tt.strip_not(term)
+                if isinstance(x_, tuple) and x_ and x_[0] in ('eq', 'ne') and len(x_) >= 3:
+                    a_, b_ = x_[1], x_[2]
+                    def is_y2(v):
+                        return (isinstance(v, Lin) and v == y2) or (isinstance(v, Sum) and v == Sum.of(y2))
+                    def is_rhs(v):
+                        return isinstance(v, Sum) and v == want_rhs
+                    if (is_y2(a_) and is_rhs(b_)) or (is_y2(b_) and is_rhs(a_)):
+                        t_ = ('curve-eq',)
+                        if (x_[0] == 'ne') != neg_:
+                            t_ = ('not', t_)
+                        return t_
+                    bad.append('compares %r with %r; expected y^2 with x^3 + b' % (a_, b_))
+                    return ('other-comparison',)
+                if isinstance(x_, tuple) and x_ and x_[0] == 'is_identity':
+                    t_ = ('is_identity',)
+                    return ('not', t_) if neg_ else t_
+                return term
+            res_n = []
+            for pth, ret, outs in res3:
+                np_ = exp.Path()
+                np_.labels = [(norm(l[0]), l[1]) for l in pth.labels]
+                np_.events = pth.events
+                r2 = ('bool', norm(ret[1])) if isinstance(ret, tuple) and ret and ret[0] == 'bool' else ret
+                res_n.append((np_, r2, outs))
+            keys = [('is_identity',), ('curve-eq',)]
+            for k_ in tt.predicates(res_n):
+                if k_ not in keys:
+                    bad.append('tests %r' % (k_,))
+            for env, cons in ([] if bad else tt.table(res_n, keys)):
+                want = True if env[keys[0]] else env[keys[1]]
+                vals = [tt.value_under(r_[1], env) for r_ in cons]
+                if len(cons) != 1 or vals[0] is None or vals[0] != want:
+                    bad.append('for (identity, y^2 = x^3 + b) = %r the predicate returns %r, expected %s' % ((env[keys[0]], env[keys[1]]), vals, want))
+            rep.check(not bad, 'GUARD', '%s:is_on_curve:shape' % g, 'identity -> true; otherwise y^2 == x^3 + b with b from the coefficient helper (truth table)', '; '.join(sorted(set(bad))[:3]), fx.fn(p3)['span'], construct=p3)
         except (exp.NotDerivable, exp.Budget) as e:
             rep.fail('GUARD', '%s:is_on_curve:shape' % g, 'not derivable: %s' % e, fx.fn(p3)['span'])
         # root selection in get_point_from_x
@@ -443,7 +465,8 @@ def rule_root_selection(fx, rep, g, aff):
                 fr.storev(t['dest'], Opt('none', exp.TOP))
                 return True
             return False
-        I = exp.Interp(fx, 'mul', extra_transfer=tr)
+        import inline as INL
+        I = exp.Interp(fx, 'mul', extra_transfer=tr, inline=lambda q: INL.is_private_helper(fx, q) and q != coeff_b)
         I.sums = True
         I.fork_inlined = True
         try:
